@@ -112,12 +112,18 @@ func (vc *VC) havocAll(s *State) {
 	oldNext := vc.getNext(s)
 	keep := map[string]string{}
 	for k, v := range s.comp {
-		if strings.HasPrefix(strings.Trim(k, "|"), "armed$") || k == "Spawns" || k == "Held" || k == "RType" || k == "Frozen" {
+		if strings.HasPrefix(strings.Trim(k, "|"), "armed$") || k == "Spawns" || k == "SiteHits" || k == "Held" || k == "RType" || k == "Frozen" {
 			keep[k] = v
 		}
 	}
 	if _, ok := vc.reg().sorts["Spawns"]; ok {
 		keep["Spawns"] = vc.get(s, "Spawns")
+	}
+	if _, ok := vc.reg().sorts["SiteHits"]; ok {
+		keep["SiteHits"] = vc.get(s, "SiteHits")
+	}
+	if _, ok := vc.reg().sorts["Held"]; ok {
+		keep["Held"] = vc.get(s, "Held") // a callee returns with the locks it was entered with (`modifies *` does not cover them)
 	}
 	// cells of this activation's own local variables cannot be reached by a callee (unless their address escapes,
 	// which the subset excludes): they keep their values
